@@ -670,3 +670,69 @@ Definition finish (c : cstate) : tres (heap * list id) :=
   do r <- destroy_detached fuel (heap_of (ts c)) (det c);
   do r2 <- tree_destroy fuel (mkT (fst r) (root (ts c)) 0 (fresh (ts c)));
   TOk (fst r2, snd r ++ snd r2).
+
+(* ------------------------------------------------------------------ *)
+(* the XML front end as a client of the tree API (wbxml_tree_clb_xml.c, the plain paths: no SyncML CDATA insertion, no
+   binary-flagged element, no embedded document).  `current` is the callback context's current node:
+     start_element : current = wbxml_tree_add_xml_elt_with_attrs(tree, current, name, attrs)
+     characters    : wbxml_tree_add_text(tree, current, chunk)         (Expat may deliver one text in several chunks)
+     end_element   : current = current->parent   (left alone when it is the root)                                   *)
+
+Inductive xnode := XElt (name : bytes) (kvs : list (bytes * bytes)) (kids : list xnode) | XText (chunks : list bytes).
+
+Fixpoint fe_texts (fuel : nat) (t : tstate) (cur : option id) (chunks : list bytes) : tres tstate :=
+  match chunks with
+  | [] => TOk t
+  | ch :: r => do x <- add_text fuel t cur ch;
+               match x with (t1, Some _) => fe_texts fuel t1 cur r | (_, None) => TFail end
+  end.
+
+Fixpoint fe_node (fuel : nat) (l : tlang) (t : tstate) (cur : option id) (x : xnode) : tres (tstate * option id) :=
+  match x with
+  | XText chunks => do t1 <- fe_texts fuel t cur chunks; TOk (t1, cur)
+  | XElt name kvs kids =>
+    do r <- add_xml_elt_with_attrs fuel l t cur name kvs;
+    match r with
+    | (t1, Some n) =>
+      do r2 <- (fix kids_loop (t : tstate) (cur : option id) (ks : list xnode) : tres (tstate * option id) :=
+                  match ks with
+                  | [] => TOk (t, cur)
+                  | k :: rest => do r <- fe_node fuel l t cur k; kids_loop (fst r) (snd r) rest
+                  end) t1 (Some n) kids;
+      (* end_element *)
+      match snd r2 with
+      | Some c => do cn <- get (heap_of (fst r2)) c;
+                  TOk (fst r2, match n_parent cn with Some p => Some p | None => Some c end)
+      | None => TFail
+      end
+    | (_, None) => TFail
+    end
+  end.
+
+(* what the document denotes: text chunks joined, names and attributes resolved by the same functions *)
+Fixpoint xdenote (l : tlang) (x : xnode) : list shape :=
+  match x with
+  | XText chunks => match chunks with [] => [] | _ => [Sh (DText (List.concat chunks)) []] end
+  | XElt name kvs kids =>
+    [Sh (DElt (snd (resolve_xml_elt l name)) (map (fun kv => resolve_xml_attr l (fst kv) (snd kv)) kvs))
+        (flat_map (xdenote l) kids)]
+  end.
+
+(* documents as Expat reports them: no empty text, no two text items in a row (they would be one text) *)
+Definition is_xtext (x : xnode) : bool := match x with XText _ => true | _ => false end.
+Fixpoint no_adjacent_xtext (ks : list xnode) : bool :=
+  match ks with
+  | a :: ((b :: _) as rest) => negb (is_xtext a && is_xtext b) && no_adjacent_xtext rest
+  | _ => true
+  end.
+Fixpoint xnf (x : xnode) : bool :=
+  match x with
+  | XText chunks => match chunks with [] => false | _ => forallb (fun c => match c with [] => false | _ => true end) chunks end
+  | XElt _ _ kids => no_adjacent_xtext kids && forallb xnf kids
+  end.
+Fixpoint xsize (x : xnode) : nat :=
+  match x with XText chunks => List.length chunks | XElt _ _ kids => S (list_sum (map xsize kids)) end.
+
+(* the whole document: the root element on the empty tree *)
+Definition fe_doc (fuel : nat) (l : tlang) (x : xnode) : tres (tstate * option id) :=
+  fe_node fuel l (ts init_state) None x.
